@@ -1,1 +1,208 @@
 //! Verification hooks: datasection (see mod.rs).
+//!
+//! Public wrappers that let an external harness (a) build a [DataSection] from a synthetic list
+//! of operations (`insert_data_value` / `append_pointer`) and read back the serialised bytes and
+//! every entry's offset, and (b) run the real two-pass layout of `to_bytecode_mut` over a
+//! synthetic op list (fixed-size ops, `LoadDataId`, `AddrDataId`).
+use crate::asm_generation::fuel::data_section::{
+    DataId, DataIdEntryKind, DataSection, Datum, Entry, EntryName,
+};
+use crate::asm_generation::instruction_set::InstructionSet;
+use crate::asm_generation::{FinalizedAsm, ProgramKind};
+use crate::asm_lang::allocated_ops::{AllocatedInstruction, AllocatedOp, AllocatedRegister};
+use crate::source_map::SourceMap;
+use crate::BuildConfig;
+use std::collections::BTreeMap;
+use sway_error::handler::Handler;
+use sway_ir::Padding;
+use sway_types::SourceEngine;
+
+/// Synthetic datum (mirrors [Datum]).
+#[derive(Clone, Debug)]
+pub enum SynthDatum {
+    Byte(u8),
+    Word(u64),
+    ByteArray(Vec<u8>),
+    Slice(Vec<u8>),
+    Collection(Vec<SynthEntry>),
+}
+
+/// Synthetic entry: `name = None` is `EntryName::NonConfigurable`; `padding = None` selects the
+/// constructor's default padding, `Some((left, target_size))` an explicit one.
+#[derive(Clone, Debug)]
+pub struct SynthEntry {
+    pub name: Option<String>,
+    pub datum: SynthDatum,
+    pub padding: Option<(bool, usize)>,
+}
+
+/// One operation on the data section.
+#[derive(Clone, Debug)]
+pub enum SynthDataOp {
+    Insert(SynthEntry),
+    AppendPointer(u64),
+}
+
+/// `(is_configurable, idx)` of a `DataId`.
+pub type SynthDataId = (bool, u32);
+
+#[derive(Clone, Debug)]
+pub struct LayoutReport {
+    /// The id returned by each operation, in order.
+    pub ids: Vec<SynthDataId>,
+    /// `data_id_to_offset` of each returned id, evaluated on the final data section.
+    pub id_offsets: Vec<usize>,
+    /// `serialize_to_bytes` of the final data section.
+    pub bytes: Vec<u8>,
+    /// Number of entries in the non-configurable part.
+    pub num_non_configurables: usize,
+    /// For every entry in absolute order (non-configurables, then configurables):
+    /// (name, `absolute_idx_to_offset`, `to_bytes`).
+    pub entries: Vec<(Option<String>, usize, Vec<u8>)>,
+}
+
+fn to_padding(p: Option<(bool, usize)>) -> Option<Padding> {
+    p.map(|(left, target_size)| {
+        if left {
+            Padding::Left { target_size }
+        } else {
+            Padding::Right { target_size }
+        }
+    })
+}
+
+fn to_entry(e: &SynthEntry) -> Entry {
+    let name = match &e.name {
+        None => EntryName::NonConfigurable,
+        Some(n) => EntryName::Configurable(n.clone()),
+    };
+    let padding = to_padding(e.padding);
+    match &e.datum {
+        SynthDatum::Byte(b) => Entry::new_byte(*b, name, padding),
+        SynthDatum::Word(w) => Entry::new_word(*w, name, padding),
+        SynthDatum::ByteArray(bs) => Entry::new_byte_array(bs.clone(), name, padding),
+        SynthDatum::Slice(bs) => Entry::new_slice(bs.clone(), name, padding),
+        SynthDatum::Collection(es) => {
+            Entry::new_collection(es.iter().map(to_entry).collect(), name, padding)
+        }
+    }
+}
+
+fn from_id(id: &DataId) -> SynthDataId {
+    (matches!(id.kind, DataIdEntryKind::Configurable), id.idx)
+}
+
+fn to_id(id: SynthDataId) -> DataId {
+    DataId {
+        idx: id.1,
+        kind: if id.0 {
+            DataIdEntryKind::Configurable
+        } else {
+            DataIdEntryKind::NonConfigurable
+        },
+    }
+}
+
+fn build(ops: &[SynthDataOp]) -> (DataSection, Vec<DataId>) {
+    let mut ds = DataSection::default();
+    let mut ids = Vec::with_capacity(ops.len());
+    for op in ops {
+        ids.push(match op {
+            SynthDataOp::Insert(e) => ds.insert_data_value(to_entry(e)),
+            SynthDataOp::AppendPointer(p) => ds.append_pointer(*p),
+        });
+    }
+    (ds, ids)
+}
+
+fn report(ds: &DataSection, ids: &[DataId]) -> LayoutReport {
+    LayoutReport {
+        ids: ids.iter().map(from_id).collect(),
+        id_offsets: ids.iter().map(|id| ds.data_id_to_offset(id)).collect(),
+        bytes: ds.serialize_to_bytes(),
+        num_non_configurables: ds.non_configurables.len(),
+        entries: ds
+            .iter_all_entries()
+            .enumerate()
+            .map(|(i, e)| {
+                let name = match &e.name {
+                    EntryName::NonConfigurable => None,
+                    EntryName::Configurable(n) => Some(n.clone()),
+                };
+                (name, ds.absolute_idx_to_offset(i), e.to_bytes())
+            })
+            .collect(),
+    }
+}
+
+/// Apply `ops` to an empty [DataSection] and report its layout.
+pub fn data_section_layout(ops: &[SynthDataOp]) -> LayoutReport {
+    let (ds, ids) = build(ops);
+    report(&ds, &ids)
+}
+
+/// `Entry::equiv` on two synthetic entries.
+pub fn entry_equiv(a: &SynthEntry, b: &SynthEntry) -> bool {
+    to_entry(a).equiv(&to_entry(b))
+}
+
+/// A synthetic code op for the layout pass of `to_bytecode_mut`.
+#[derive(Clone, Debug)]
+pub enum SynthCodeOp {
+    /// `NOOP` (4 bytes).
+    Noop,
+    /// `BLOB n` (`4 * n` bytes).
+    Blob(u32),
+    /// `LoadDataId $r0, id`.
+    Load(SynthDataId),
+    /// `AddrDataId $r0, id`.
+    Addr(SynthDataId),
+}
+
+pub struct BytecodeReport {
+    pub bytecode: Vec<u8>,
+    pub named_offsets: BTreeMap<String, u64>,
+    /// Layout of the data section after `to_bytecode_mut` (pointers appended).
+    pub layout: LayoutReport,
+}
+
+/// Build a data section with `data_ops`, then run the real `FinalizedAsm::to_bytecode_mut` over
+/// `code`. Panics of the real code propagate to the caller.
+pub fn synthetic_to_bytecode(data_ops: &[SynthDataOp], code: &[SynthCodeOp]) -> BytecodeReport {
+    let (ds, ids) = build(data_ops);
+    let reg = AllocatedRegister::Allocated(0);
+    let ops = code
+        .iter()
+        .map(|c| AllocatedOp {
+            opcode: match c {
+                SynthCodeOp::Noop => AllocatedInstruction::NOOP,
+                SynthCodeOp::Blob(n) => AllocatedInstruction::BLOB(
+                    crate::asm_lang::VirtualImmediate24::new(*n as u64),
+                ),
+                SynthCodeOp::Load(id) => AllocatedInstruction::LoadDataId(reg.clone(), to_id(*id)),
+                SynthCodeOp::Addr(id) => AllocatedInstruction::AddrDataId(reg.clone(), to_id(*id)),
+            },
+            comment: String::new(),
+            owning_span: None,
+        })
+        .collect();
+    let mut asm = FinalizedAsm {
+        data_section: ds,
+        program_section: InstructionSet::Fuel { ops },
+        program_kind: ProgramKind::Script,
+        entries: vec![],
+        abi: None,
+    };
+    let handler = Handler::default();
+    let mut source_map = SourceMap::new();
+    let source_engine = SourceEngine::default();
+    let build_config = BuildConfig::dummy_for_asm_generation();
+    let compiled = asm
+        .to_bytecode_mut(&handler, &mut source_map, &source_engine, &build_config)
+        .expect("fuel instruction set never errors");
+    BytecodeReport {
+        bytecode: compiled.bytecode,
+        named_offsets: compiled.named_data_section_entries_offsets,
+        layout: report(&asm.data_section, &ids),
+    }
+}
